@@ -1,9 +1,12 @@
 #!/bin/bash
 # dev helper: run every registered check of a tier, print one line each
+cd "$(dirname "$0")"
 tier=${1:-quick}; shift
-props=${@:-$(python3 -c "import json;print(' '.join(p['id'] for p in json.load(open('/verif/harness/props.json'))['props']))")}
+props=${@:-$(python3 -c "import json;print(' '.join(p['id'] for p in json.load(open('harness/props.json'))['props']))")}
+mkdir -p .work
 for p in $props; do
   s=$(date +%s)
-  ./check $p $tier > .work/run_$p.log 2>&1; rc=$?
-  echo "$p exit=$rc $(( $(date +%s)-s ))s $(grep -c '^VIOLATION' .work/run_$p.log) viol; $(grep -m2 'INCONCLUSIVE x\|VACUOUS\|MISMATCH\|NOT REPRODUCED' .work/run_$p.log | cut -c1-160 | tr '\n' ' ')"
+  ./check $p $tier > .work/run_${tier}_$p.log 2>&1; rc=$?
+  echo "$p exit=$rc $(( $(date +%s)-s ))s $(grep -c '^VIOLATION' .work/run_${tier}_$p.log) viol; $(grep -m2 'INCONCLUSIVE x\|VACUOUS\|MISMATCH\|NOT REPRODUCED' .work/run_${tier}_$p.log | cut -c1-160 | tr '\n' ' ')"
 done
+echo finished
